@@ -19,6 +19,12 @@ RULE = ("for every scenario (master generation, private/public ckd, derive_path,
 
 INVALID = [("il", N, "IL=n"), ("il", N + 1, "IL=n+1"), ("il", 2**256 - 1, "IL=2^256-1"), ("child", 0, "child=0")]
 VALID = [("il", 1, "IL=1"), ("il", N - 1, "IL=n-1"), ("child", 1, "child=1"), ("child", N - 1, "child=n-1")]
+# values that differ from n in exactly one 32-bit limb (a comparison implemented limb by limb must get each right), and
+# byte patterns with long runs of ff / 00
+LIMB_INVALID = [("il", N + 2**(32 * k), "IL=n+2^%d" % (32 * k)) for k in range(1, 8) if N + 2**(32 * k) < 2**256] + \
+               [("il", 2**256 - 2**128, "IL=ff*16|00*16"), ("il", 2**256 - 2**64, "IL=ff*24|00*8"), ("il", 2**256 - 2**192, "IL=ff*8|00*24"),
+                ("il", (2**128 - 1) << 128 | 0x1234, "IL=ff*16|low")]
+LIMB_VALID = [("il", N - 2**(32 * k), "IL=n-2^%d" % (32 * k)) for k in range(1, 8)] + [("il", 2**255, "IL=2^255"), ("il", (2**127 - 1) << 128, "IL=7f ff*15|00*16")]
 MASTER_ANS = [("il", 0, "IL=0"), ("il", N, "IL=n"), ("il", N + 1, "IL=n+1"), ("il", 2**256 - 1, "IL=2^256-1"),
               ("il", 1, "IL=1"), ("il", N - 1, "IL=n-1")]
 B85_VALUES = [(0, "0"), (N, "n"), (N + 1, "n+1"), (2**256 - 1, "2^256-1"), (1, "1"), (N - 1, "n-1")]
@@ -113,7 +119,7 @@ def inj_for(call, kpar, ans):
 def alphabet_for(call):
     key, _ = call
     if key == b"Bitcoin seed":
-        return MASTER_ANS
+        return MASTER_ANS + [a for a in LIMB_INVALID + LIMB_VALID]
     return INVALID + VALID
 
 
@@ -187,6 +193,17 @@ def run(ctx):
             scs.append(({"op": "ckd", "root": r, "i": i}, False))
             if i < H:
                 scs.append(({"op": "ckd", "root": dict(r, pub=True), "i": i}, False))
+    # limb-boundary answers on two parents, private and public, normal and hardened
+    limb = []
+    for r in rts[:2]:
+        for i in (0, H + 1):
+            limb.append({"op": "ckd", "root": r, "i": i})
+        limb.append({"op": "ckd", "root": dict(r, pub=True), "i": 1})
+    # the same single steps after N earlier derivations in the same process (bounded caches in the derivation helpers)
+    for r in rts[:1]:
+        for warm in (1, 4, 15, 16, 17, 32, 33):
+            scs.append(({"op": "ckd", "root": r, "i": 0, "warm": warm}, False))
+            scs.append(({"op": "ckd", "root": dict(r, pub=True), "i": 0, "warm": warm}, False))
     hist_roots = rts[:4 if ctx.thorough else 2]
     for r in hist_roots:
         d2 = True
@@ -209,6 +226,13 @@ def run(ctx):
         out = []
         for sc, d2 in scs:
             out += enumerate_cases(sc, d2, st)
+        for sc in limb:
+            table, _ = record(sc, [])
+            for call, kpar in table.items():
+                for ans in LIMB_INVALID + LIMB_VALID:
+                    inj = inj_for(call, kpar, ans)
+                    if inj:
+                        out.append({"sc": sc, "inj": [inj]})
         return out, st
     from ..core import isolated
     cases, stats = isolated(enumerate_all)     # recording runs the implementation: done in a child, the parent stays pristine
